@@ -7,6 +7,7 @@ import (
 	"net"
 	"strings"
 	"sync"
+	"sync/atomic"
 	"testing"
 	"time"
 
@@ -581,5 +582,151 @@ func TestPollerLossyPath(t *testing.T) {
 			}
 		}
 		vlib.Rec.Case(fmt.Sprintf("layerB|%v|%v", fates, sizes), faults > 0, []string{"layer-b", fmt.Sprintf("isolated:%v", isolated)}, func() interface{} { return desc })
+	})
+}
+
+// TestBlackoutThenHealed: "once the path stops losing everything accepted arrives". After the real Handshake() (with its
+// poll loop) some writes go through, then the path loses a drawn number of consecutive exchanges (enough, in part of the
+// cases, for a client Write to give up and report an error together with the number of bytes it accepted), then the path
+// heals. Everything the writes reported as accepted - including the count returned with an error - must reach the server,
+// nothing else, and a later write must terminate and arrive as well.
+func TestBlackoutThenHealed(t *testing.T) {
+	budget := int32(vlib.Pick(60, 600))
+	var ran int32
+	rapid.Check(t, func(rt *rapid.T) {
+		if atomic.AddInt32(&ran, 1) > budget {
+			return
+		}
+		pre := rapid.IntRange(0, 4).Draw(rt, "writesBefore")
+		burst := rapid.IntRange(1, 30).Draw(rt, "lostExchanges")
+		lossKind := rapid.IntRange(0, 2).Draw(rt, "lossKind") // 0 query lost, 1 answer lost, 2 alternating
+		sizes := make([]int, pre+2)
+		for i := range sizes {
+			sizes[i] = rapid.IntRange(1, 700).Draw(rt, "size")
+		}
+		ss := &simServer{}
+		srv := NewServerDnsListener("example.org", ss)
+		defer srv.Close()
+		comm := newSimClient(ss, &net.UDPAddr{IP: net.IPv4(10, 0, 0, 9), Port: 4009})
+		client, err := NewClientDnsConnection("example.org", comm)
+		if err != nil {
+			rt.Fatalf("client: %v", err)
+		}
+		if err := client.Handshake(); err != nil {
+			rt.Fatalf("handshake over a transparent path failed: %v", err)
+		}
+		defer func() {
+			comm.nextFate = nil
+			done := make(chan struct{})
+			go func() { defer close(done); client.Close() }()
+			select {
+			case <-done:
+			case <-time.After(5 * time.Second):
+				comm.closed = true
+			}
+		}()
+		c, err := srv.Accept()
+		if err != nil {
+			rt.Fatalf("accept: %v", err)
+		}
+		user := c.(*userConnection)
+		var mu sync.Mutex
+		var got []byte
+		go func() {
+			buf := make([]byte, 16384)
+			for {
+				n, err := user.Read(buf)
+				mu.Lock()
+				got = append(got, buf[:n]...)
+				mu.Unlock()
+				if err != nil {
+					return
+				}
+			}
+		}()
+		var lossLeft int32
+		var lost int32
+		comm.nextFate = func(q *mdns.Msg) fate {
+			if atomic.AddInt32(&lossLeft, -1) >= 0 {
+				k := atomic.AddInt32(&lost, 1)
+				if lossKind == 1 || (lossKind == 2 && k%2 == 0) {
+					return fateAnswerLost
+				}
+				return fateQueryLost
+			}
+			return fateDelivered
+		}
+		desc := map[string]interface{}{"writes_before": pre, "lost_exchanges": burst, "loss_kind": lossKind, "sizes": sizes}
+		fail := func(msg string) {
+			vlib.Rec.Violation(map[string]interface{}{"property": "C07", "layer": "B-blackout", "case": desc, "problem": msg})
+			rt.Fatalf("C07 blackout %v: %s", desc, msg)
+		}
+		var written []byte // concatenation of what the writes reported as accepted
+		write := func(i int, bound time.Duration) (int, error, bool) {
+			data := vlib.PRF(uint64(900+i), 0, sizes[i])
+			type res struct {
+				n   int
+				err error
+			}
+			rc := make(chan res, 1)
+			go func() { n, err := client.Write(data); rc <- res{n, err} }()
+			select {
+			case r := <-rc:
+				if r.n < 0 || r.n > len(data) {
+					fail(fmt.Sprintf("write %d of %d bytes reported %d bytes accepted", i, len(data), r.n))
+				}
+				written = append(written, data[:r.n]...)
+				return r.n, r.err, true
+			case <-time.After(bound):
+				return 0, nil, false
+			}
+		}
+		for i := 0; i < pre; i++ {
+			if _, err, ok := write(i, 15*time.Second); !ok || err != nil {
+				fail(fmt.Sprintf("write %d on a transparent path: terminated=%v err=%v", i, ok, err))
+			}
+		}
+		atomic.StoreInt32(&lossLeft, int32(burst))
+		n, werr, ok := write(pre, 30*time.Second)
+		atomic.StoreInt32(&lossLeft, 0) // the path heals
+		if !ok {
+			fail(fmt.Sprintf("the write during the blackout (%d lost exchanges) did not terminate within 30s", burst))
+		}
+		desc["blackout_write_accepted"] = n
+		desc["blackout_write_error"] = fmt.Sprint(werr)
+		if burst <= 1 && werr != nil {
+			fail(fmt.Sprintf("a single lost exchange surfaced as a write failure: %v", werr))
+		}
+		waitFor := func(want int, bound time.Duration) int {
+			deadline := time.Now().Add(bound)
+			for {
+				mu.Lock()
+				l := len(got)
+				mu.Unlock()
+				if l >= want || time.Now().After(deadline) {
+					return l
+				}
+				time.Sleep(5 * time.Millisecond)
+			}
+		}
+		if l := waitFor(len(written), 15*time.Second); l < len(written) {
+			fail(fmt.Sprintf("the path healed, the writes had accepted %d bytes (the one during the blackout: %d, error %v) but only %d arrived within 15s", len(written), n, werr, l))
+		}
+		// a later write terminates and arrives too
+		if _, err, ok := write(pre+1, 20*time.Second); !ok {
+			fail("a write after the path healed did not terminate within 20s")
+		} else if err != nil {
+			fail(fmt.Sprintf("a write after the path healed failed: %v", err))
+		}
+		waitFor(len(written), 15*time.Second)
+		time.Sleep(20 * time.Millisecond)
+		mu.Lock()
+		g := append([]byte(nil), got...)
+		mu.Unlock()
+		if d := vlib.FirstDiff(g, written); d != -1 {
+			fail(fmt.Sprintf("server read %d bytes, writes accepted %d; first difference at byte %d", len(g), len(written), d))
+		}
+		labels := []string{"layer-b-blackout", fmt.Sprintf("write-failed:%v", werr != nil)}
+		vlib.Rec.Case(fmt.Sprintf("blackout|%v", desc), true, labels, func() interface{} { return desc })
 	})
 }
